@@ -71,6 +71,49 @@ Example C19_real_time_is_stronger :
   cr_search 2 calls st sch [[ [5] ]; [ [1; 1] ]] = true.
 Proof. vm_compute. repeat split; reflexivity. Qed.
 
+(* ---- failing operations.  An operation whose inner step raises (parse error / unreadable file, sqlite
+   error, raising backing cache, unparsable YAML file) is an ordinary call of the model: its result is the
+   exception code [8], the component's state is what the code leaves behind (unchanged; for the text file
+   the cleared snapshot, which makes the next call re-read).  lock_linearizable therefore covers runs
+   with failing calls: the results of ALL calls -- the later ones on the same object from the same and from
+   other threads included -- equal those of a sequential execution, nothing deadlocks, and the lock is
+   released on every exit path: ---- *)
+Theorem C19_lock_released_on_every_exit_path :
+  forall (O W LS Call Res E : Type) (begin : Call -> LS) (prog : Call -> list (mstep O W LS)) (ret : LS -> Res)
+         (env : E -> W -> W) (body : Call -> list (LS -> O -> W -> LS * O)),
+  (forall c, prog c = cs_prog O W LS (body c)) ->
+  forall ls0 o w (calls : list (list Call)) (sch : list (choice E)),
+    let s := run O W LS Call Res E begin prog ret env (init O W LS Call Res ls0 o w calls) sch in
+    ((forall t, In t (threads s) -> pcl t = []) -> lock s = None) /\
+    (all_done O W LS Call Res s = true -> lock s = None).
+Proof.
+  intros O W LS Call Res E begin prog ret env body Hcs ls0 o w calls sch s.
+  assert (HI : Inv O W LS Call Res s).
+  { apply (inv_run O W LS Call Res E begin prog ret env body Hcs). apply inv_init. }
+  split; [apply lock_free_between_calls | apply lock_free_when_done]; exact HI.
+Qed.
+Print Assumptions C19_lock_released_on_every_exit_path.
+
+(* what a failing operation leaves behind in each component *)
+Theorem C19_failing_ops_leave_object_usable :
+  (forall c k, lru_exec (CFail k) c = (c, [8])) /\
+  (forall l s, store_exec (SFail s) l = (l, [8])) /\
+  (* text file: the read hits an unparsable / missing file: the call answers [8] (as seen from its world)
+     and nothing is remembered, so that the snapshot invariant holds again and the next call re-reads *)
+  (forall contents bad ce l o w, bad w = true -> (ce && opt_nat_eqb (statv l) (fver o) = false) ->
+     t_read contents bad ce l o w =
+       ({| tc := tc l; statv := statv l; tres := at_world (tc l) w [8] |}, {| fver := None; parsed := [] |})) /\
+  (* yaml: a call that read an unparsable file version answers [8] and stores nothing *)
+  (forall table l o w, rd_bad table (reads l) = true ->
+     y_set table l o w = (l, o) /\ yret table l = [8]).
+Proof.
+  repeat split.
+  - intros contents bad ce l o w Hb Hc. unfold t_read. rewrite Hc, Hb. reflexivity.
+  - unfold y_set. rewrite H. reflexivity.
+  - unfold yret. rewrite H. reflexivity.
+Qed.
+Print Assumptions C19_failing_ops_leave_object_usable.
+
 (* ---- instances: SynchronizedCache(LRUCache), TextFileSource, DataStore are single critical sections ---- *)
 Theorem C19_instances_are_critical_sections :
   (forall c, cache_prog true c = cs_prog lru unit (ccall * R) (cache_body c)) /\
@@ -103,7 +146,7 @@ Print Assumptions C19_text_call_spec.
    correct result for the versions its call read, every call returns get_data_spec of the versions IT
    read, and (fe12c42) one version per file. ---- *)
 Theorem C19_yaml_concurrent : forall table tree once w0 calls sch,
-  let s := run (option yitem) (list nat) yls unit R nat yls_begin (yaml_prog table tree once) yret bump
+  let s := run (option yitem) (list nat) yls unit R nat yls_begin (yaml_prog table tree once) (yret table) bump
                (init (option yitem) (list nat) yls unit R (yls_begin tt) None w0 calls) sch in
   cache_valid table (obj s) /\
   forall t, In t (threads s) -> Forall (Ry table tree once (in_run w0 sch)) (res t).
@@ -114,10 +157,10 @@ Print Assumptions C19_yaml_concurrent.
    of a file state that was present during the run: a sequential answer *)
 Theorem C19_yaml_answers_are_sequential : forall table tree w0 calls sch,
   length (yenvs sch) <= 1 ->
-  let s := run (option yitem) (list nat) yls unit R nat yls_begin (yaml_prog table tree true) yret bump
+  let s := run (option yitem) (list nat) yls unit R nat yls_begin (yaml_prog table tree true) (yret table) bump
                (init (option yitem) (list nat) yls unit R (yls_begin tt) None w0 calls) sch in
   forall t, In t (threads s) -> forall r, In r (res t) ->
-    In r (map (fun w => flat (yspec table (snapshot_of tree w))) (worlds_of w0 (yenvs sch))).
+    In r (map (fun w => yans table (snapshot_of tree w)) (worlds_of w0 (yenvs sch))).
 Proof. exact yaml_results_in_specs. Qed.
 Print Assumptions C19_yaml_answers_are_sequential.
 
